@@ -461,10 +461,13 @@ func runCase(r *h.Run, c caseT) {
 	}
 	_ = w.cn.Close()
 	readerForced, readerShort := false, false
+	forcedInfo := ""
 	select {
 	case <-readerDone:
 	case <-time.After(10 * time.Second):
 		readerForced = true
+		cl, _ := w.cn.IsClosed()
+		forcedInfo = fmt.Sprintf("10 s after Close returned the peer's reader had not seen the end of the stream; received so far %d; nbio IsClosed=%v; kernel:%s\n%s", atomic.LoadInt64(&w.gotN), cl, outb.TCPStates(peer), h.Stacks())
 		peer.Close()
 		<-readerDone
 	}
@@ -486,6 +489,9 @@ func runCase(r *h.Run, c caseT) {
 			readerShort = true
 			r.Count("reader_ended_before_kernel_bytes_arrived", 1)
 			r.Inconclusive(fmt.Sprintf("case %d: the peer's reader ended (%v, forced=%v) with %d bytes received, %d accepted; stream checked as a prefix", c.Index, readerErr, readerForced, len(stream), w.accepted))
+			if forcedInfo != "" {
+				fmt.Printf("=== case %d: %s\n", c.Index, forcedInfo)
+			}
 		}
 	}
 	// the stream itself must still be intact (C01 oracle, prefix when overflow closed it)
